@@ -113,7 +113,7 @@ func main() {
 		}
 		scs = []scenario{{f, w.Pre, 1}}
 	}
-	var execs, states, bBlocked, bFinished int64
+	var execs, states, bBlocked, bFinished, noVerdict int64
 	var samples lib.Samples
 	exhaustive := true
 	for si, sc := range scs {
@@ -197,7 +197,12 @@ func main() {
 						select {
 						case <-p.done:
 						case <-time.After(240 * time.Second):
-							hung = true
+							// a wall-clock horizon alone is never an alarm: it is a deadlock only if both processes sleep in flock()
+							if !a.finished() && !b.finished() && blockedOnFlock(a.cmd.Process.Pid) && blockedOnFlock(b.cmd.Process.Pid) {
+								hung = true
+							} else {
+								atomic.AddInt64(&noVerdict, 1)
+							}
 							syscall.Kill(-p.cmd.Process.Pid, syscall.SIGKILL)
 							<-p.done
 						}
@@ -209,9 +214,13 @@ func main() {
 					if f := strings.Fields(wit.Op); len(f) > 1 {
 						opKind = f[1]
 					}
+					if !hung && (a.exit == -1 || b.exit == -1) && atomic.LoadInt64(&noVerdict) > 0 {
+						os.RemoveAll(dir)
+						continue // horizon hit without evidence of a deadlock: no verdict for this schedule
+					}
 					switch {
 					case hung:
-						r.Violate(fmt.Sprintf("%s:hang:pause-before-%s", sc.fam.Name(), opKind), wit, "the two invocations did not both finish within 240s\nA:\n"+a.out.String()+"\nB:\n"+b.out.String())
+						r.Violate(fmt.Sprintf("%s:hang:pause-before-%s", sc.fam.Name(), opKind), wit, "both invocations sleep in flock() after 240s (deadlock)\nA:\n"+a.out.String()+"\nB:\n"+b.out.String())
 					case a.exit != 0 || b.exit != 0:
 						r.Violate(fmt.Sprintf("%s:invocation-failed:pause-before-%s", sc.fam.Name(), opKind), wit, fmt.Sprintf("exit statuses A=%d B=%d\nA:\n%s\nB:\n%s", a.exit, b.exit, a.out.String(), b.out.String()))
 					default:
@@ -248,7 +257,7 @@ func main() {
 		States:             int(states),
 		Transitions:        int(execs),
 		TracesValidated:    int(execs),
-		Exhaustive:         exhaustive,
-		Extra:              map[string]any{"b_finished_in_gap": bFinished, "b_blocked_on_a_lock_held_by_a": bBlocked, "scenarios": len(scs)},
+		Exhaustive:         exhaustive && noVerdict == 0,
+		Extra:              map[string]any{"schedules_without_verdict_horizon_hit": noVerdict, "b_finished_in_gap": bFinished, "b_blocked_on_a_lock_held_by_a": bBlocked, "scenarios": len(scs)},
 	})
 }
